@@ -183,6 +183,29 @@ def step_programs(tier):
     return out
 
 
+def two_loop_programs(tier):
+    """Two for-equations in one model with the same index name and the same subscript expression, ranges of equal
+    length but different bounds: each loop is judged on its own range (a check remembered from the first loop says
+    nothing about the second)."""
+    out = []
+    for n in (3, 4):
+        x, b, c = Decl("x", dims=(n,)), Decl("b"), Decl("c")
+        for shift, tag in ((0, "x[i]"), (1, "x[i+1]"), (-1, "x[i-1]")):
+            i = V("i")
+            sub = i if shift == 0 else B("+" if shift > 0 else "-", i, N(abs(shift)))
+            length_range = (2, 3) if tier == "quick" else (1, 2, 3)
+            for length in length_range:
+                starts = range(0, n + 3 - length)
+                for lo1 in starts:
+                    for lo2 in starts:
+                        if lo1 == lo2:
+                            continue
+                        l1 = ("for", "i", lit(lo1), lit(lo1 + length - 1), [("eq", B("*", V("b"), i), ("idx", "x", (sub,)))])
+                        l2 = ("for", "i", lit(lo2), lit(lo2 + length - 1), [("eq", B("*", V("c"), i), ("idx", "x", (sub,)))])
+                        out.append(("two-loops-" + tag, Model("M", [x, b, c], [l1, l2])))
+    return out
+
+
 def programs(tier):
     out = []
     a, s = Decl("a"), Decl("s")
@@ -236,6 +259,7 @@ def programs(tier):
     out.append(("too-many-subscripts", Model("M", [Decl("x", dims=(2,)), a], [("eq", V("a"), ("idx", "x", (N(1), N(1))))])))
     out += loop_programs(tier)
     out += step_programs(tier)
+    out += two_loop_programs(tier)
     seen, uniq = set(), []
     for fam, m in out:  # (x[i] = b*i of the first loop family is also the c1=1, c0=0 member of loop-1d-lhs)
         t = m.text()
